@@ -44,6 +44,37 @@ static int g_wn = 0, g_wcalls = 0;
 static bool g_wOverflow = false;
 static bool g_harnessError = false;  // the harness was used outside its contract
 
+// ---- synchronous reference scanner over the bytes the implementation has actually read -------------
+// Written from docs/enhanced_proto.md / the C14 statement like RefEnhDecoder: it only remembers whether
+// the bytes read so far contain (a) an item that may cancel a running arbitration (RESETTED, ERROR_*,
+// undefined command, second byte without first byte, first byte followed by a non-second byte) and
+// (b) a SYN symbol.  A first byte whose successor has not been read yet is neither.
+struct ReadMonitor {
+  uint8_t pendFirst;  // 0 or the first byte waiting for its second byte
+  uint8_t sawCause;
+  uint8_t sawSyn;
+  void byte(uint8_t b) {
+    if (pendFirst) {
+      uint8_t f = pendFirst;
+      pendFirst = 0;
+      if ((b & 0xc0) != 0x80) {  // malformed: dangling first byte; b is swallowed or decoded on its own
+        sawCause = 1;
+        if (b >= 0xc0) pendFirst = b;  // reading "decoded on its own" (the other reading can only hide a cause, never add one)
+        return;
+      }
+      uint8_t cmd = (f >> 2) & 0x0f, data = static_cast<uint8_t>(((f & 3) << 6) | (b & 0x3f));
+      if (cmd == 0x1) { if (data == 0xaa) sawSyn = 1; }
+      else if (cmd == 0x2 || cmd == 0xa || cmd == 0x3) {}  // STARTED, FAILED, INFO
+      else sawCause = 1;                                   // RESETTED, ERROR_EBUS, ERROR_HOST, undefined
+      return;
+    }
+    if (b < 0x80) return;
+    if ((b & 0xc0) == 0x80) { sawCause = 1; return; }
+    pendFirst = b;
+  }
+};
+static ReadMonitor g_mon = {0, 0, 0};
+
 inline bool fdEmpty() { return g_qh == g_qt; }
 inline void fdClear() { g_qh = g_qt = 0; }
 inline void fdPush(const uint8_t* p, int n, bool coalesce = false) {
@@ -95,6 +126,7 @@ ssize_t read(int fd, void* buf, size_t n) {
   size_t avail = static_cast<size_t>(c.n - c.off);
   size_t k = avail < n ? avail : n;
   memcpy(buf, c.b + c.off, k);
+  for (size_t i = 0; i < k; i++) env::g_mon.byte(c.b[c.off + i]);
   c.off = static_cast<uint8_t>(c.off + k);
   if (c.off >= c.n) env::g_qh++;
   return static_cast<ssize_t>(k);
